@@ -20,6 +20,10 @@ CLAIMED = {
             "agreement of the three target encodings"),
     "C08": ("4 C08", "post-dominance of stats refresh after in-place post-processing, sibling cross-check of objectives' "
             "recorded keys, guarded best update and once-per-trial bookkeeping on the CFG"),
+    "C09": ("4 C09", "abstract interpretation of the six sibling step-cost functions into cost signatures compared with "
+            "the objectives' definitions and with the name dispatch; CFG/guard analysis of the DP (memo overwrite "
+            "guard and tuple layout, sieve skip, early exits, outer-product flag); partial evaluation of the "
+            "bipartition range expressions; must-pass-through of the cap widening"),
     "C13": ("4 C13", "cache-key completeness/injectivity by def-use dependence, sibling TypeError fallback, purity and "
             "result-immutability of lru_cached parsers, array-taint of cached callables"),
     "C14": ("4 C14", "fingerprint determinism/coverage by dependence analysis, cache policy as CFG path properties, "
@@ -47,6 +51,7 @@ LEVEL_TEXT = {
     "C06": "every writer of the sliced-index table keeps output indices first and the slice count is multiplied/divided by the recorded size; stride arithmetic is runtime and not decided",
     "C07": "forbidden indices are excluded on every path, whatever search() returns passes the unscaled target filter, the cost model slices only indices it knows against its own baseline; equality of predicted and real costs is not decided",
     "C08": "the returned trial is the arg-min of the recorded scores on every schedule (each reported trial is compared, guarded update, once-per-trial bookkeeping) and recorded costs are refreshed after every in-place post-processing; cost values are not decided",
+    "C09": "necessary conditions of optimality only: each objective name is minimised with a step cost whose derived signature equals the objective's definition, the per-subgraph memo keeps the better entry, the sieve skips only on the new score against a cap that grows every round, every bipartition size is enumerated, search_outer is honoured; that the result is the global minimum is NOT decided",
     "C13": "cache keys are complete and injective, memoised functions pure, cached callables stateless — for every cache site and call site in the package; numeric equality of cached and uncached results is not decided",
     "C14": "fingerprints are deterministic, covering and position-preserving, and the lookup/run/overwrite policy holds on every CFG path of the reusable optimizer; that a rebuilt tree equals the searched one is not decided",
     "C15": "no kill point can leave a partial file under an entry name because every durable write is temp-sibling + close + atomic replace, and a corrupt entry reads as absent; filesystem behaviour is assumed (POSIX rename)",
@@ -62,8 +67,6 @@ NA = {
            "array data; the only structural clause (root axis order sourced from the declared output) is decided under C02-ROOT",
     "C05": "completeness of every pathfinder's result depends on data-dependent partition/greedy outcomes; no structural "
            "necessary condition beyond 'built through an auto-completing constructor', which no realistic break violates",
-    "C09": "optimality is a minimum over all binary trees; correctness of the DP/sieve is an inductive argument over "
-           "runtime scores, not a property of code shape (proof or exhaustive-enumeration families)",
     "C10": "round-trip equality of integer path encodings produced by pop/bisect arithmetic over runtime lists; nothing "
            "structural to decide",
     "C11": "value semantics of a reshape/transpose/matmul plan over runtime shapes; the only structural clause (purity of "
